@@ -1,7 +1,7 @@
 (* Extract/Codecs_extract.v — extraction of the C20 codec models (ExtrOcamlBasic
    only; N/Z/positive/nat stay Coq inductives). *)
 From Coq Require Import Extraction ExtrOcamlBasic.
-From RJ Require Import Base.Outcome Base.F64 Model.Radix Model.Base64 Model.Utf8Codec Model.Esc Model.JsonParse.
+From RJ Require Import Base.Outcome Base.F64 Model.Radix Model.Base64 Model.Utf8Codec Model.Esc Model.JsonParse Model.Hash.
 Extraction Language OCaml.
 
 Extraction "../ocaml/gen/codecs_model.ml" wire_anchor
@@ -10,4 +10,5 @@ Extraction "../ocaml/gen/codecs_model.ml" wire_anchor
   Base64.base64_string Base64.base64_numbers Base64.base64_decode_bytes
   Utf8Codec.encode_utf8 Utf8Codec.decode_lossy
   Esc.escape_bash Esc.escape_dollars Esc.escape_xml Esc.escape_json Esc.escape_python
-  JsonParse.parse_json.
+  JsonParse.parse_json
+  Hash.std_md5 Hash.std_sha1 Hash.std_sha256 Hash.std_sha512 Hash.std_sha3.
